@@ -202,7 +202,8 @@ def gen_world(rng, n_types=None, n_preds=None, n_funcs=None, n_consts=None, n_ob
 
 def gen_params(rng, w: W, n=None):
     tnames = w.type_names() or ["object"]
-    n = rng.randint(1, 3) if n is None else n
+    # now and then an action without parameters (its literals are over constants and zero-arity symbols only)
+    n = (0 if rng.random() < 0.07 else rng.randint(1, 3)) if n is None else n
     params = []
     populated = [t for t in tnames if w.things_of(t, with_constants=False)] or tnames
     for i in range(n):
@@ -270,16 +271,23 @@ HALVES = [Fraction(k, 2) for k in range(-4, 7)]
 FINE = [Fraction(1, 4), Fraction(1, 20), Fraction(7, 4), Fraction(-3, 4), Fraction(3, 20)]
 
 
-def gen_num_expr(rng, w, scope, depth=1, ops=("+", "-", "*"), **kw):
+# effects are exported with four decimals: constants that need all four, a hair away from a whole number
+FOUR = ["1.0001", "0.9999", "0.0001", "2.0001", "-0.0001", "12.3456", "-1.9999"]
+
+
+def gen_num_expr(rng, w, scope, depth=1, ops=("+", "-", "*"), in_effect=False, **kw):
     r = rng.random()
     if depth <= 0 or r < 0.35:
         if rng.random() < 0.65:
             t = gen_fluent_term(rng, w, scope, **kw)
             if t is not None:
                 return t
+        if in_effect and rng.random() < 0.2:
+            return rng.choice(FOUR)
         return frac_str(rng.choice(FINE if rng.random() < 0.2 else HALVES))
     op = rng.choice(ops)
-    return [op, gen_num_expr(rng, w, scope, depth - 1, ops, **kw), gen_num_expr(rng, w, scope, depth - 1, ops, **kw)]
+    return [op, gen_num_expr(rng, w, scope, depth - 1, ops, in_effect=in_effect, **kw),
+            gen_num_expr(rng, w, scope, depth - 1, ops, in_effect=in_effect, **kw)]
 
 
 def gen_comparison(rng, w, scope, must_mention=None, **kw):
@@ -315,7 +323,9 @@ def gen_formula(rng, w, scope, depth=2, width=3, forall=True, top=True, nested_n
     for _ in range(n):
         r = rng.random()
         if depth > 0 and r < 0.3:
-            sub = gen_formula(rng, w, scope, depth - 1, width, forall=False, top=False, nested_numeric=nested_numeric, **kw)
+            # a quantified condition may itself be a disjunct / conjunct of a nested condition
+            sub = gen_formula(rng, w, scope, depth - 1, width, forall=forall and depth > 1 and rng.random() < 0.5, top=False,
+                              nested_numeric=nested_numeric, **kw)
             sub[0] = rng.choice(["or", "or", "and"])
             if len(sub) > 1:
                 out.append(sub)
@@ -372,7 +382,7 @@ def gen_simple_effect(rng, w, scope, numeric=True, must_mention=None, **kw):
             tgt = None
         if tgt:
             op = rng.choice(["assign", "increase", "decrease"])
-            return [op, tgt, gen_num_expr(rng, w, scope, rng.choice([0, 1, 1]), **kw)]
+            return [op, tgt, gen_num_expr(rng, w, scope, rng.choice([0, 1, 1]), in_effect=True, **kw)]
     lit = gen_literal(rng, w, scope, must_mention=must_mention, **kw)
     return lit
 
